@@ -708,6 +708,11 @@ impl Report {
             ));
         }
         let distinct_fresh_keys: BTreeSet<&str> = fresh.iter().map(|v| v.key.as_str()).collect();
+        if std::env::var("VERIF_LIST_ALL").is_ok() {
+            for k in &distinct_fresh_keys {
+                println!("FRESH-KEY {k}");
+            }
+        }
 
         let mut coverage = serde_json::Map::new();
         coverage.insert("states".into(), json!(self.states.max(0)));
